@@ -28,6 +28,8 @@ type Case struct {
 	Rot     int           `json:"rot,omitempty"`
 	Scale   int           `json:"scale,omitempty"`
 	Quiet   int           `json:"quiet,omitempty"`    // quiet zone in modules
+	PadX    int           `json:"pad_x,omitempty"`    // further white, in modules, on the left and on the right (non-square picture)
+	PadY    int           `json:"pad_y,omitempty"`    // the same above and below
 	Damage  [][2]int      `json:"damage,omitempty"`   // (codeword index, xor value)
 	ModeDmg [][2]int      `json:"mode_dmg,omitempty"` // (nibble index, xor value 1..15)
 }
@@ -114,7 +116,7 @@ func check(raw json.RawMessage) error {
 		return fmt.Errorf("hx: bitmap: %v", err)
 	}
 	res, err := aztec.NewAztecReader().Decode(bmp, nil)
-	desc += fmt.Sprintf(", rotation %d, scale %d, quiet zone %d modules, %d damaged mode nibbles", c.Rot*90, c.Scale, c.Quiet, len(c.ModeDmg))
+	desc += fmt.Sprintf(", rotation %d, scale %d, quiet zone %d modules, %d damaged mode nibbles, picture %dx%d", c.Rot*90, c.Scale, c.Quiet, len(c.ModeDmg), img.GetWidth(), img.GetHeight())
 	if err != nil {
 		return fmt.Errorf("AztecReader.Decode failed on a clean conforming symbol image: %v [%s]", err, desc)
 	}
@@ -150,7 +152,8 @@ func imageOf(c Case, sym *azref.Symbol, bm *gozxing.BitMatrix) (*gozxing.BitMatr
 	img := imgx.Scale(bm, c.Scale)
 	img = imgx.Rotate(img, c.Rot)
 	q := c.Quiet * c.Scale
-	return imgx.Pad(img, q, q, q, q), nil
+	// imgx.Pad(m, left, top, right, bottom): the symbol stays in the middle of the picture
+	return imgx.Pad(img, q+c.PadX*c.Scale, q+c.PadY*c.Scale, q+c.PadX*c.Scale, q+c.PadY*c.Scale), nil
 }
 
 // centreDeviation: distance, in modules, between the true centre of the symbol and the centre the
@@ -170,8 +173,8 @@ func centreDeviation(img *gozxing.BitMatrix, scale int) float64 {
 		cx += p.GetX() / 4
 		cy += p.GetY() / 4
 	}
-	tc := float64(img.GetWidth()) / 2
-	return math.Max(math.Abs(cx-tc), math.Abs(cy-tc)) / float64(scale)
+	tcx, tcy := float64(img.GetWidth())/2, float64(img.GetHeight())/2
+	return math.Max(math.Abs(cx-tcx), math.Abs(cy-tcy)) / float64(scale)
 }
 
 // rebuild reconstructs symbol, damaged matrix and image of an image-level case.
@@ -603,6 +606,23 @@ func TestCheck(t *testing.T) {
 			if spec.Layers > 16 && cs.Scale > 3 {
 				cs.Scale = 3
 			}
+			// the picture need not be square: further white to the left and right, or above and below,
+			// up to the point where the bull's eye lies farther along the long side than the short side is long
+			shape := rapid.SampledFrom([]string{"square", "square", "wide", "tall"}).Draw(t, "shape")
+			if shape != "square" {
+				pad := rapid.IntRange(1, sym.Size+2*cs.Quiet).Draw(t, "pad")
+				if spec.Layers > 16 && pad > 40 {
+					pad = 40
+				}
+				if shape == "wide" {
+					cs.PadX = pad
+				} else {
+					cs.PadY = pad
+				}
+				if 2*pad > sym.Size+2*cs.Quiet {
+					shape += "_centre_beyond_short_side"
+				}
+			}
 			dm := rapid.SampledFrom([]string{"none", "none", "some", "capacity"}).Draw(t, "damage")
 			cs.Damage = drawDamage(t, sym, dm)
 			if rapid.Bool().Draw(t, "modedmg") {
@@ -620,7 +640,7 @@ func TestCheck(t *testing.T) {
 					}
 				}
 			}
-			cl, _ := classOf(spec, used, fmt.Sprintf("rot=%d;scale=%d;damage=%s", cs.Rot*90, cs.Scale, dm))
+			cl, _ := classOf(spec, used, fmt.Sprintf("rot=%d;scale=%d;damage=%s;shape=%s", cs.Rot*90, cs.Scale, dm, shape))
 			if img, e := rebuild(cs); e == nil {
 				if dev := centreDeviation(img, cs.Scale); dev < 0 || dev >= 0.5 {
 					// known finding aztec-centre-estimate: steer around it (counted), keep 1 in 10
